@@ -178,4 +178,18 @@ PROPERTIES = {
             part("C15.concurrent", race=True, shards={"quick": 8, "thorough": 16}, floor=20),
         ],
     },
+    "C18": {
+        "level": "exploration",
+        "level_text": "in-package exhaustive enumeration of the generator's output for every setting within the stated bounds (count, distinctness, determinism, shuffle, well-formedness, JSON "
+                      "round trip) and of checkCommits on all small synthetic commit logs against a reference verdict; executor verdicts re-derived from returned logs",
+        "level_note": "what NextScenario does after the announced count is reached is outside the statement (recorded as a note only)",
+        "technique": "exhaustive output enumeration with invariant checks + reference-verdict differential",
+        "exhaustive": True,
+        "rule": "C18: twins tester",
+        "parts": [
+            part("C18.generator", target=("test", "twins"), shards={"quick": 16, "thorough": 16}, floor=20),
+            part("C18.verdict", target=("test", "twins"), shards={"quick": 8, "thorough": 16}, floor=1000),
+            part("C18.execute", target=("test", "twins"), shards={"quick": 8, "thorough": 16}, floor=10),
+        ],
+    },
 }
